@@ -65,8 +65,10 @@ def _run_scenario(job):
     try:
         if kind == "random":
             from harness import mailgen
+            payload = dict(payload)
+            wkw = payload.pop("world", {})
             steps = mailgen.gen_scenario(seed, **payload)
-            tr = mailgen.execute(steps, seed=seed)
+            tr = mailgen.execute(steps, seed=seed, **wkw)
             return {"kind": kind, "seed": seed, "trace": tr, "drift": [], "steps": steps}
         elif kind == "directed":
             from harness import mailgen
@@ -202,6 +204,12 @@ def run_family(ck, prefixes, *, model_prop, quick, thorough):
                     ck.note_case((e["act"], e["uid"], e["status"], e["mode"],
                                   tuple(len(v) for v in e["out"].values()),
                                   len(e["set"]), e["silent"]))
+        from collections import Counter
+        cnt = Counter()
+        for t in traces:
+            for e in t:
+                cnt[f"{e['act']}:{e['status']}"] += 1
+        ck.cov["impl_action_counts"] = dict(sorted(cnt.items()))
         ck.cov["rule"] = ("cases = steps executed on the implementation (TLC-generated behaviours "
                           "replayed + seeded random multi-session workloads); distinct non-trivial = "
                           "distinct (action, uid-form, outcome, store mode, per-session untagged counts, "
